@@ -21,8 +21,14 @@ TArdClear ==
        IN  CASE ev.fam = "ks"  -> ks' = [ks EXCEPT ![ev.k][ev.o] = KsUnset] /\ UNCHANGED <<tks, mks>>
              [] ev.fam = "tks" -> tks' = [tks EXCEPT ![ev.k][ev.o] = TksUnset(ev.k)] /\ UNCHANGED <<ks, mks>>
              [] ev.fam = "mk"  -> mks' = [mks EXCEPT ![ev.o] = MksUnset] /\ UNCHANGED <<ks, tks>>
+             [] ev.fam = "ctr" -> UNCHANGED <<ks, tks, mks>>
     /\ NoHeap(Ev)
-    /\ UNCHANGED <<env, ctr, par>>
+    \* CTR<T>::clear(): no key any more, all-zero counter, nothing buffered (the stream restarts at
+    \* byte 0 of E(0) once a key is set); the counter width chosen by setCounterSize stays
+    /\ IF Ev.fam = "ctr"
+       THEN ctr' = [ctr EXCEPT !["s128"][Ev.o].key = KeyNone("s128"), !["s128"][Ev.o].pos = PosInit(16)]
+       ELSE UNCHANGED ctr
+    /\ UNCHANGED <<env, par>>
 
 (* CTRCommon::setCounterSize(n), n in 1..16: from now on only the low n bytes of  *)
 (* the counter block are incremented (modulo 2^(8n)); the bytes above are a fixed  *)
